@@ -472,6 +472,14 @@ func hookEvent(kind int, a interface{}) {
 		s.BusyWaiting = false
 		s.YieldsAtStart = s.Yields
 		s.record(kind, uint64(s.SearchGen))
+		if s.Cost.SetupStallPct > 0 && s.costRng.Intn(100) < s.Cost.SetupStallPct/2 {
+			// fault F3 at the very start of the search goroutine: it is
+			// descheduled right after it has taken the running lock
+			s.SetupStalls++
+			d := int64(1000 + s.costRng.Intn(s.Cost.SetupStallMaxUs*1000+1))
+			t := s.reserve(d)
+			s.sleepUntil(t)
+		}
 	case verifhook.SearchEnd:
 		s.SearchActive = false
 		s.BusyWaiting = false
